@@ -103,6 +103,14 @@ type mapEnt struct {
 	v       Value
 }
 
+// IterV: a map iterator (ssa.Range): snapshot of the key list at creation and
+// a heap cell holding the (possibly symbolic) position.
+type IterV struct {
+	m    *MapV
+	keys []string
+	pos  *Obj
+}
+
 // MapContent: concrete string keys, each with a presence guard.
 type MapContent struct {
 	keys []string
@@ -332,6 +340,11 @@ func IteV(c *Term, a, b Value) Value {
 			return x
 		}
 		panic(unsupported("merge of distinct maps"))
+	case *IterV:
+		if y, ok := b.(*IterV); ok && x == y {
+			return x
+		}
+		panic(unsupported("merge of distinct map iterators"))
 	case *MapContent:
 		y := b.(*MapContent)
 		if x == y {
